@@ -91,6 +91,7 @@ fn encode_returns(ty: MetricType) {
     kani::stub(<f64 as std::fmt::Display>::fmt, f64_display_marker))]
 pub fn c17_text_encoder_untyped_family() {
     encode_returns(MetricType::UNTYPED);
+    vcover!(true, "end of harness reached");
 }
 /// TextEncoder on counter and gauge families: returns Ok, does not panic.
 #[cfg_attr(kani, kani::proof, kani::unwind(18),
@@ -100,6 +101,7 @@ pub fn c17_text_encoder_untyped_family() {
 pub fn c17_text_encoder_counter_gauge() {
     encode_returns(MetricType::COUNTER);
     encode_returns(MetricType::GAUGE);
+    vcover!(true, "end of harness reached");
 }
 /// TextEncoder on histogram and summary families: returns Ok, does not panic.
 #[cfg_attr(kani, kani::proof, kani::unwind(18),
@@ -109,6 +111,7 @@ pub fn c17_text_encoder_counter_gauge() {
 pub fn c17_text_encoder_histogram_summary() {
     encode_returns(MetricType::HISTOGRAM);
     encode_returns(MetricType::SUMMARY);
+    vcover!(true, "end of harness reached");
 }
 /// Families without a name or without samples are refused with Err by both encoders' shared
 /// check, for every family type.
@@ -129,6 +132,7 @@ pub fn c17_family_without_name_or_samples_is_err() {
     assert!(r3.is_err(), "C17 a family without a name is refused");
     std::mem::forget((r1, r2, r3));
     std::mem::forget(no_name);
+    vcover!(true, "end of harness reached");
 }
 
 pub fn dispatch(name: &str) -> Option<fn()> {
